@@ -501,6 +501,10 @@ func roundTrip(c Case) *hx.Failure {
 		hx.E.Exclude("does-not-parse." + c.Kind)
 		return nil
 	}
+	if hx.KnownOpen("C08-comment-next-to-bracket-lost") && commentNextToBracket(t1) {
+		hx.E.Exclude("known.C08-comment-next-to-bracket-lost")
+		return nil
+	}
 	f := features(t1)
 	nt := f.needParen || f.specialStr || f.innerCmt
 	classes := []string{"kind." + c.Kind}
@@ -546,6 +550,11 @@ func roundTrip(c Case) *hx.Failure {
 	if p2 != p1 {
 		done("not-idempotent")
 		what, line := firstDiffConstruct(p1, p2, t2)
+		if same, n1, n2 := onlyCommentsDiffer(p1, p2); same && n2 < n1 {
+			what = "comment-lost"
+		} else if same && n1 == n2 {
+			what = "layout:" + what
+		}
 		return hx.Failf("not-idempotent:"+what, "source %q\nfirst pass  %q\nsecond pass %q\nfirst difference in line %d", clip(src), clip(p1), clip(p2), line)
 	}
 
